@@ -151,44 +151,73 @@ def axiom_audit(pid, modules):
 # ----------------------------------------------------------------------------------------------
 # streams
 
+def _worker(pid, name, i, seed, per, tier, compare, results_slot):
+    """One generator process, restarted after an abort / hang at the next case (the offending case is recorded)."""
+    o = os.path.join(WORK, f"{pid}_{name}_{i}")
+    open(o + ".impl", "w").close()
+    skip = 0
+    aborted = []
+    restarts = 0
+    while True:
+        cmd = f"{ORACLE} gen {name} --seed {seed} --n {per} --tier {tier} --skip {skip} >> {o}.impl"
+        p = subprocess.run(cmd, shell=True, stderr=subprocess.PIPE)
+        if p.returncode == 0:
+            break
+        done = sum(1 for l in open(o + ".impl") if l.strip())
+        bad = done + len(aborted)  # index of the case that killed the process
+        # fetch the case text
+        rc, out = sh(f"{ORACLE} gen {name} --seed {seed} --n {per} --tier {tier} --print-case {bad}")
+        kind = "hang" if p.returncode == 97 else "abort"
+        err = p.stderr.decode(errors="replace")[-300:]
+        try:
+            case = json.loads(out.strip().splitlines()[-1])["case"]
+        except Exception:
+            case = None
+        aborted.append({"index": bad, "kind": kind, "case": case, "stderr": err})
+        skip = bad + 1
+        restarts += 1
+        if restarts > 50 or skip >= per:
+            break
+    if compare:
+        subprocess.run(f"{DRIVER} < {o}.impl > {o}.model", shell=True, stderr=subprocess.PIPE)
+    results_slot.append((o, aborted))
+
+
 def run_stream(pid, stream, n, seed, tier, corpus_lines):
-    """Run harness gen (split over processes) | driver; return list of (implLine, modelLine) dicts."""
+    """Run harness gen (split over processes) | driver; returns list of (implLine, modelLine) dicts."""
+    import threading
     os.makedirs(WORK, exist_ok=True)
     name = stream["name"]
-    procs = []
-    k = min(NCPU, max(1, n // max(1, stream.get("min_per_proc", 50))))
-    per = (n + k - 1) // k
+    k = min(NCPU, max(1, n // max(1, stream.get("min_per_proc", 50)))) if n > 0 else 0
+    per = (n + k - 1) // k if k else 0
     compare = stream.get("compare", True)
     t0 = time.time()
-    outs = []
-    # corpus first
+    slots = []
+    threads = []
+    crashed = []
+    aborted_all = []
     if corpus_lines:
         cf = os.path.join(WORK, f"{pid}_{name}_corpus.in")
         open(cf, "w").write("\n".join(corpus_lines) + "\n")
         o = os.path.join(WORK, f"{pid}_{name}_corpus")
         cmd = f"{ORACLE} eval {name} < {cf} > {o}.impl"
         if compare:
-            cmd += f" && {DRIVER} < {o}.impl > {o}.model"
-        procs.append((subprocess.Popen(cmd, shell=True, stderr=subprocess.PIPE), o))
+            cmd += f"; {DRIVER} < {o}.impl > {o}.model"
+        p = subprocess.run(cmd, shell=True, stderr=subprocess.PIPE)
+        got = sum(1 for l in open(o + ".impl") if l.strip())
+        if got < len(corpus_lines):
+            aborted_all.append({"index": got, "kind": "abort", "case": json.loads(corpus_lines[got])["case"], "stderr": p.stderr.decode(errors="replace")[-300:]})
+        slots.append((o, []))
     for i in range(k):
-        o = os.path.join(WORK, f"{pid}_{name}_{i}")
         s = (seed * 1000003 + i * 7919 + 1) & 0x7FFFFFFFFFFFFFFF
-        cmd = f"{ORACLE} gen {name} --seed {s} --n {per} --tier {tier} > {o}.impl"
-        if compare:
-            cmd += f" && {DRIVER} < {o}.impl > {o}.model"
-        procs.append((subprocess.Popen(cmd, shell=True, stderr=subprocess.PIPE), o))
+        th = threading.Thread(target=_worker, args=(pid, name, i, s, per, tier, compare, slots))
+        th.start()
+        threads.append(th)
+    for th in threads:
+        th.join()
     results = []
-    crashed = []
-    tmo = stream.get("timeout", 1500 if tier == "quick" else 14000)
-    for p, o in procs:
-        try:
-            _, err = p.communicate(timeout=max(10, tmo - (time.time() - t0)))
-        except subprocess.TimeoutExpired:
-            p.kill()
-            crashed.append(f"{o}: timeout")
-            err = b""
-        if p.returncode not in (0, None):
-            crashed.append(f"{o}: exit {p.returncode}: {err.decode(errors='replace')[-400:]}")
+    for o, aborted in slots:
+        aborted_all += aborted
         impl = [l for l in open(o + ".impl").read().splitlines() if l.strip()] if os.path.exists(o + ".impl") else []
         model = [l for l in open(o + ".model").read().splitlines() if l.strip()] if compare and os.path.exists(o + ".model") else []
         for j, l in enumerate(impl):
@@ -207,6 +236,11 @@ def run_stream(pid, stream, n, seed, tier, corpus_lines):
                 else:
                     b = {"model": None, "error": "driver produced no line"}
             results.append((a, b))
+    # a case that kills or hangs the process is a totality failure (property C18), reported under that key
+    for ab in aborted_all:
+        a = {"stream": name, "case": ab["case"], "impl": ab["kind"], "tags": ["process-" + ab["kind"]],
+             "oracle": [{"key": f"C18/{name}/process-{ab['kind']}", "what": f"the process was killed ({ab['kind']}) while evaluating this case: {ab['stderr'][-200:]}"}]}
+        results.append((a, None))
     return results, crashed, time.time() - t0
 
 
@@ -348,6 +382,7 @@ def main():
     samples = []
     mismatches = []
     stream_stats = {}
+    other_keys = collections.Counter()
     if harness_ok:
         streams = cfg.get("streams", [])
         if replay:
@@ -388,6 +423,10 @@ def main():
                 if len(samples) < 3 and "trivial" not in tg and len(json.dumps(a["case"])) < 1500:
                     samples.append({"stream": s["name"], "case": a["case"], "impl": a["impl"]})
                 for o in a.get("oracle", []):
+                    if not o["key"].startswith(pid + "/"):
+                        st["other-property-findings"] += 1
+                        other_keys[o["key"]] += 1
+                        continue
                     kf = match_known(known, pid, o["key"])
                     if kf:
                         if kf["key"] not in known_hits:
@@ -397,7 +436,7 @@ def main():
                         st["oracle-failures"] += 1
                         violations.append((o["key"], o["what"], {"stream": s["name"], "case": a["case"], "impl": a["impl"], "oracle": o,
                                                                   "model": (b or {}).get("model")}))
-                if s["compare"] and b is not None and a["impl"] is not None:
+                if s["compare"] and b is not None and a["impl"] is not None and "model" in b:
                     if b.get("model") != a["impl"]:
                         st["model-mismatch"] += 1
                         mismatches.append({"stream": s["name"], "case": a["case"], "impl": a["impl"], "model": b.get("model"), "model_error": b.get("error")})
@@ -456,6 +495,7 @@ def main():
             "streams": stream_stats, "distribution": dict(tags.most_common(60)),
             "disagreements_model_vs_impl": len(mismatches),
             "known_findings_reproduced": list(known_hits.keys()),
+            "findings_of_other_properties_seen": dict(other_keys.most_common(20)),
             "broken_obligations": [b["kind"] + ": " + b["name"] for b in broken],
         },
         "assumptions": cfg.get("assumptions", []),
